@@ -22,13 +22,13 @@ from . import c06_lib as L
 from .common import plist, VERIF
 
 THEOREMS = ['Pyiga.Props.C13.' + n for n in [
-    'equal_key_equal_source', 'cache_sound', 'cache_sound_current', 'sep',
+    'equal_key_equal_source', 'cache_sound', 'history_sound', 'cache_sound_current', 'sep',
     'sep_operator', 'sep_funcname', 'sep_constant', 'sep_shape', 'sep_derivative', 'sep_derivative_input', 'sep_measure',
     'sep_boundary', 'sep_geo_dim', 'sep_arity', 'sep_components', 'sep_space', 'sep_updatable', 'sep_on_demand',
     'slp_perm_sound', 'modname_deterministic']] + [
     'Pyiga.Gen.HashKeys.keyTable_complete', 'Pyiga.Gen.HashKeys.fkeyTable_complete', 'Pyiga.Gen.HashKeys.base_hash_ok',
     'Pyiga.Gen.HashKeys.codegen_reads_known', 'Pyiga.Gen.HashKeys.extraction_consistent', 'Pyiga.Gen.HashKeys.modname_digest_ok']
-MODULES = ['Pyiga.Model.VForm', 'Pyiga.Model.SLP', 'Pyiga.Proofs.VFormKey', 'Pyiga.Proofs.SLP', 'Pyiga.Props.C13', 'Pyiga.Gen.HashKeys']
+MODULES = ['Pyiga.Model.VForm', 'Pyiga.Model.CompileHist', 'Pyiga.Proofs.CompileHist', 'Pyiga.Model.SLP', 'Pyiga.Proofs.VFormKey', 'Pyiga.Proofs.SLP', 'Pyiga.Props.C13', 'Pyiga.Gen.HashKeys']
 
 CONSTS = [1.0, 2.0, -1.0, -2.0, 0.5, 0.0, -0.0, 3.0]
 FUNCS = [None, 'abs', 'sqrt', 'exp', 'log', 'sin', 'cos', 'tan']
@@ -278,9 +278,11 @@ def run(ctx):
     from pyiga import vform as V
     key_table, ftable = {}, []
     keys_ok = False
+    objsem = {}
     try:
         from translator import c13_keys
         kt = c13_keys.extract()
+        objsem = kt.get('objsem') or {}
         key_table = {c: [a for a in kt['expr_table'][c] if a in kt['probe']['expr'].get(c, [])] for c in kt['expr_table']}
         ftable = [a for a in dict.fromkeys(kt['f_attrs']) if a in kt['probe']['form']]
         c13_keys.write(kt)
@@ -288,7 +290,7 @@ def run(ctx):
         keys_ok = ok
         ctx.obligation('T-key: KeyTableComplete, FKeyTableComplete, base hash, codegen reads, extraction consistency re-decided on the '
                        'regenerated tables (Gen/HashKeys.lean)', ok, log[-900:] if not ok else '')
-        ctx.extra['key_table'] = key_table; ctx.extra['form_key_attrs'] = ftable; ctx.extra['modname_expression'] = kt.get('modname')
+        ctx.extra['key_table'] = key_table; ctx.extra['form_key_attrs'] = ftable; ctx.extra['modname_expression'] = kt.get('modname'); ctx.extra['vform_hash_semantics'] = kt.get('objsem')
         ctx.extra['unknown_codegen_reads'] = kt['unknown_reads']; ctx.extra['extraction_problems'] = kt['problems'] + kt['probe']['mismatch']
     except Exception:
         ctx.obligation('T-key translator ran', False, traceback.format_exc()[-600:])
@@ -376,6 +378,13 @@ def run(ctx):
     ctx.extra['requests'] = len(lines)
     if len(ctx.samples) < 3 and meta:
         ctx.sample({'pair_token': meta[0][3], 'spec': {k: repr(v) for k, v in meta[0][1].items()}})
+
+    # request histories (compile_vform / compile_vforms, object histories) with the build stubbed
+    try:
+        from . import c13_history
+        c13_history.check_histories(ctx, ktok, ftok, objsem)
+    except Exception:
+        ctx.obligation('request-history check ran', False, traceback.format_exc()[-600:])
 
     # on-disk module names: function of the source, injective on the corpus + adversarial sources
     try:
